@@ -1437,6 +1437,11 @@ class Engine:
             return [(st, VNone)]
         if key == 'cast' and len(e.args) == 2:
             return self.ev(e.args[1], st)
+        if len(e.args) == 1 and isinstance(e.args[0], ast.GeneratorExp) and not e.keywords \
+                and (key + '(<genexp>)') in self.spec.stubs:
+            # f(<generator expression>) as one stubbed unit (assumed contract keyed 'f(<genexp>)'): the stub reads
+            # what it needs from the locals (cx.st.env); cx.node is the call, so it can insist on the source text
+            return self.apply_stub(st, self.spec.stubs[key + '(<genexp>)'], key + '(<genexp>)', None, [], {}, e)
         if key == 'super' and not e.args and not e.keywords and 'self' in st.env and 'super' not in self.spec.stubs:
             # zero-argument super(): the receiver is self; the method looked up on it must be resolved by a
             # textual stub / inline  'super().name'  (checked below), never by the receiver's own class
